@@ -37,9 +37,13 @@ def build(ctx, rule):
     m.search = None
     f = m.to_unstable[0]
     for c in walk_own(f.node):
-        if isinstance(c, ast.Call):
+        if isinstance(c, ast.Call) and len(c.args) == 5:
             callee = repo.resolve_call(f, c)
-            if callee is not None and any(isinstance(x, ast.Call) and repo.resolve_call(callee, x) is callee for x in walk_own(callee.node)):
+            if callee is None or len(callee.params) != 5:
+                continue
+            rec_ = any(isinstance(x, ast.Call) and repo.resolve_call(callee, x) is callee for x in walk_own(callee.node))
+            loop_ = any(isinstance(x, ast.While) for x in walk_own(callee.node))
+            if rec_ or loop_:
                 m.search = callee
                 m.search_call_unstable = c
     if m.search is None:
